@@ -190,7 +190,7 @@ func textTemplateB(v ssa.Value, depth int, bind map[ssa.Value]ssa.Value, bases *
 					n++
 				}
 			}
-			if n == 1 && isTextType(callee.Signature.Results().At(0).Type()) {
+			if n == 1 && isTextTypeT(callee.Signature.Results().At(0).Type()) {
 				nb := map[ssa.Value]ssa.Value{}
 				for k, w := range bind {
 					nb[k] = w
@@ -209,7 +209,7 @@ func textTemplateB(v ssa.Value, depth int, bind map[ssa.Value]ssa.Value, bases *
 		}
 	}
 	// any other string / []byte value is an operand
-	if isTextType(v.Type()) {
+	if isTextTypeT(v.Type()) {
 		if bases != nil {
 			*bases = append(*bases, v)
 		}
@@ -218,7 +218,7 @@ func textTemplateB(v ssa.Value, depth int, bind map[ssa.Value]ssa.Value, bases *
 	return "", nil, false
 }
 
-func isTextType(t types.Type) bool {
+func isTextTypeT(t types.Type) bool {
 	switch t.Underlying().String() {
 	case "string", "[]byte":
 		return true
